@@ -70,3 +70,11 @@ def tables_index(t):
 
 def spec_amount_decimal(a):
     return Decimal(int(a["mant"])).scaleb(-int(a["scale"]))
+
+
+def scope_root(c, ws, origin):
+    """index of the file whose include tree a request made from file `origin` is answered from: the workspace root's when
+    there is a workspace root AND the file belongs to its tree, else the file's own"""
+    if ws and (origin + 1) in c["files"][0]["tree"]:
+        return 0
+    return origin
